@@ -6,6 +6,8 @@ use vstd::prelude::*;
 impl AppDecodeLevel {
 //@fn rodbus/src/decode.rs | AppDecodeLevel::enabled | tags=C20
 //@fn rodbus/src/decode.rs | AppDecodeLevel::header | tags=C20
+//@fn rodbus/src/decode.rs | AppDecodeLevel::data_headers | tags=C20
+//@fn rodbus/src/decode.rs | AppDecodeLevel::data_values | tags=C20
 }
 impl FrameDecodeLevel {
 //@fn rodbus/src/decode.rs | FrameDecodeLevel::enabled | tags=C20
